@@ -2,10 +2,10 @@
 # usage: try_patch_at.sh <patch file> <Cxx> [more Cxx...] : like try_patch.sh but on the scratch worktree /tmp/wt/probe (so that it can
 # run while another tool is using /repo's working tree). Evidence of these runs goes to a scratch directory.
 P=$1; shift
-W=/tmp/wt/probe
+W=/tmp/wt/${PROBE:-probe}
 cd /verif
 git -C $W checkout -q -- . ; git -C $W clean -fdq
 git -C $W apply "$P" || { echo "PATCH DOES NOT APPLY"; exit 3; }
 E=$(mktemp -d)
-for c in "$@"; do VERIF_REPO=$W VERIF_TARGET=/var/tmp/verif_probe_target VERIF_EVIDENCE_DIR=$E ./vcheck $c 2>&1 | grep -a -v KNOWN-FINDING | grep -a -E "VIOLATION|key:|\] OK:|cannot analyse" | head -8; done
+for c in "$@"; do VERIF_REPO=$W VERIF_TARGET=/var/tmp/verif_${PROBE:-probe}_target VERIF_EVIDENCE_DIR=$E ./vcheck $c 2>&1 | grep -a -v KNOWN-FINDING | grep -a -E "VIOLATION|key:|\] OK:|cannot analyse" | head -8; done
 rm -rf "$E"; git -C $W checkout -q -- .
